@@ -14,7 +14,12 @@ inductive Term where
   | none : Term
   | inp : String → Term
   | app : String → List Term → Term
-  deriving Repr, BEq, Inhabited
+  deriving Repr, Inhabited
+
+/-- `x is None` -/
+def Term.isNone : Term → Bool
+  | .none => true
+  | _ => false
 
 /-- The simulation object: the attributes that matter, grouped.  `geom` stands for the six
     constructor arrays (never written after construction); `W` is the number of walls. -/
@@ -80,14 +85,14 @@ def setBrdf (s : St) (walls : List Nat) (mat : String) : St :=
   let br := if s.dirsIn.isSome then s.brdf else []
   let br' := br ++ [Term.app "pi*" [.inp mat]]
   { s with
-    freq := if s.freq == .none then .inp "F" else s.freq
+    freq := if s.freq.isNone then .inp "F" else s.freq
     dirsIn := some (setAll dIn walls fun i => .app "rot" [s.geom, .inp (toString i), .inp (mat ++ ".in")])
     dirsOut := some (setAll dOut walls fun i => .app "rot" [s.geom, .inp (toString i), .inp (mat ++ ".out")])
     brdf := br'
     index := some (setAll ix walls fun _ => (br'.length : Int) - 1) }
 
 def setAtt (s : St) (a : String) : St :=
-  { s with freq := if s.freq == .none then .inp "F" else s.freq, att := .inp a }
+  { s with freq := if s.freq.isNone then .inp "F" else s.freq, att := .inp a }
 
 /-- `bake_geometry()`: reads geometry and materials only. -/
 def bake (s : St) : St :=
@@ -107,10 +112,10 @@ def bake (s : St) : St :=
 /-- default materials installed by `init_source_energy` when none were set -/
 def installDefaults (s : St) : St :=
   let s1 := if s.dirsIn.isSome then s else
-    let f := if s.freq == .none then Term.inp "F0" else s.freq
+    let f := if s.freq.isNone then Term.inp "F0" else s.freq
     { setBrdf { s with freq := f } (List.range s.W) "default" with freq := f }
-  if s1.att == .none then
-    let f := if s1.freq == .none then Term.inp "F0" else s1.freq
+  if s1.att.isNone then
+    let f := if s1.freq.isNone then Term.inp "F0" else s1.freq
     { s1 with att := .app "zeros" [f], freq := f }
   else s1
 
@@ -125,7 +130,7 @@ def init (s : St) (src : String) : St :=
 /-- `calculate_energy_exchange(par…, recalculate)`. -/
 def exchange (s : St) (par : String) (orderZero recalc : Bool) : St :=
   let etc' :=
-    if s.etc == .none || recalc then
+    if s.etc.isNone || recalc then
       if orderZero then Term.app "etc0" [s.e0, s.d0, .inp par]
       else Term.app "etc" [s.e0, s.d0, s.geom, s.fft, s.p2o, s.visible, .inp par]
     else s.etc
@@ -151,7 +156,7 @@ def obsCollect (s : St) (recv : String) : Term :=
 
 /-- What the direct sound observes (`none` source: the call fails). -/
 def obsDirect (s : St) (recv : String) : Option Term :=
-  if s.source == .none then none
+  if s.source.isNone then none
   else some (.app "direct" [s.source, s.att, s.freq, s.c, s.dt, .inp recv])
 
 end Sparrow.Life
